@@ -183,3 +183,50 @@ def outcome_class(ref_subs, compressed):
     kinds = tuple(sorted(set(m[0] for m in s.meta)))
     miss = tuple(v is None for v in s.values)
     return (kinds, len(s.labels), miss, compressed, len(ref_subs))
+
+
+class StructChooser(Chooser):
+    """Chooser whose structural data (bitmap bits, forced factors 031002, free counts 031001) are fixed by the
+    structure: queues[s] = [('bit'|'forced', v), ...] in template order for subset s, free = [counts]."""
+
+    def __init__(self, ctx, nsub, compressed, queues, free, variant_of_subset=None, **kw):
+        Chooser.__init__(self, ctx, nsub, compressed, **kw)
+        self.queues = queues
+        self.free = list(free)
+        self.vmap = variant_of_subset or list(range(nsub))
+        self.pos = {}
+        self.fpos = {}
+
+    def __call__(self, info):
+        role = info.get('role')
+        if role in ('bit', 'factor'):
+            s = 0 if self.comp else info['subset']
+            if role == 'factor' and info['desc'] == 31001:
+                k = self.fpos.get(s, 0)
+                self.fpos[s] = k + 1
+                fr = self.free
+                if fr and isinstance(fr[0], (list, tuple)):
+                    fr = fr[self.vmap[s]]           # free counts differ per subset variant
+                v = fr[k]
+            elif role == 'factor' and info['desc'] == 31000:
+                return Chooser.__call__(self, info)
+            else:
+                q = self.queues[self.vmap[s]]
+                k = self.pos.get(s, 0)
+                self.pos[s] = k + 1
+                kind, v = q[k]
+                if (kind == 'bit') != (role == 'bit'):
+                    raise ValueError('structure queue out of step: %r for %r' % (q[k], info))
+            return [v] * self.nsub if self.comp else v
+        return Chooser.__call__(self, info)
+
+
+def build_struct_message(ctx, descs, queues, free, nsub=1, compressed=False, variant_of_subset=None, version=33,
+                         edition=4):
+    B, D = tables_for(version)
+    ch = StructChooser(ctx, nsub, compressed, queues, free, variant_of_subset)
+    buf, subs, notes, nbincs = codec.encode(B, D, descs, nsub, compressed, ch)
+    spec = message.Spec(edition=edition, meta={'master_table_version': version}, descs=descs, nsub=nsub,
+                        compressed=compressed)
+    b, info = message.build(spec, buf)
+    return b, spec, subs, notes
